@@ -316,6 +316,23 @@ VUnknownDec(ev) ==
 VMaskTable(ev) ==
   LET bad == {m \in 1..Len(ev.masks) : ev.masks[m] # GenerateMask(NLit(m))[1] \/ ev.nbytes[m] # GenerateMask(NLit(m))[2]}
   IN IF bad = {} THEN PGood ELSE PBad("generate_mask(" \o ToString(FirstBad(bad)) \o ")", "")
+(* type misuse of the element API must raise; equal elements hash equally; Ed25519 private-key clamping *)
+VMisuse(ev) == IF ev.raised = 1 THEN PGood ELSE PBad("element API accepted a misuse: " \o ev.what, "an exception")
+VHashEq(ev) == IF ev.same = 1 THEN PGood ELSE PBad("equal elements have different hashes", "")
+VClamp(ev) ==
+  LET v   == NFromBytesLE(HexToBytes(ev.b))
+      lo  == NLowBits(v, 254)
+      exp == NAdd(NSub(lo, NLowBits(lo, 3)), NFromBytes(<<64>> \o Zeros(31)))     \* clear bits 0-2 and 255, set bit 254
+  IN IF ev.out.t = "val" /\ PHNum(ev.out.v) = exp THEN PGood ELSE PBad("bytes_to_clamped_scalar", BytesToHex(NToBytes(exp, 32)))
+(* a subgroup Element added to an arbitrary curve point (either order)            *)
+VMixedAdd(ev) ==
+  LET c == GroupTable[ev.grp]
+      P == AffMul(c, EdBase(c), PHNum(ev.k))
+      U == UPoint(c, ev.u)
+      e == AffAdd(c, P, U)
+  IN IF ev.out.t = "elem" /\ HexToBytes(ev.out.enc) = EdEnc(c, e) THEN PGood
+     ELSE PBad("subgroup element + arbitrary curve point is not the Edwards sum", BytesToHex(EdEnc(c, e)))
+
 PureVerdict(ev) ==
   CASE ev.op = "g_dec_table" -> VDecTable(ev)
     [] ev.op = "g_dec"       -> VDec(ev)
@@ -335,6 +352,10 @@ PureVerdict(ev) ==
     [] ev.op = "finalize_sym" -> VFinalizeSym(ev)
     [] ev.op = "params_sound" -> VParamsSound(ev)
     [] ev.op = "ctor_table"  -> VCtorTable(ev)
+    [] ev.op = "misuse"      -> VMisuse(ev)
+    [] ev.op = "hash_eq"     -> VHashEq(ev)
+    [] ev.op = "clamp"       -> VClamp(ev)
+    [] ev.op = "mixed_add"   -> VMixedAdd(ev)
     [] ev.op = "u_op"        -> VUnknownOp(ev)
     [] ev.op = "u_dec"       -> VUnknownDec(ev)
     [] ev.op = "mask_table"  -> VMaskTable(ev)
